@@ -5,3 +5,6 @@ sany:
 	python3 tools/sany_all.py
 selftest:
 	python3 tools/selftest.py
+
+extras:
+	$(CURDIR)/bin/check X01 --tier quick
